@@ -314,7 +314,6 @@ impl<'data> ProguardCache<'data> {
         // At this point, we know how many members/members-by-params each class has because we kept count,
         // but we don't know where each class's entries start. We'll rectify that below.
 
-        let mut writer = watto::Writer::new(writer);
         let string_bytes = string_table.into_bytes();
 
         let num_members = classes.values().map(|c| c.class.members_len).sum::<u32>();
@@ -332,9 +331,9 @@ impl<'data> ProguardCache<'data> {
             string_bytes: string_bytes.len() as u32,
         };
 
-        writer.write_all(header.as_bytes())?;
-        writer.align_to(8)?;
+        write_aligned(writer, header.as_bytes())?;
 
+        let mut class_entries = Vec::with_capacity(classes.len());
         let mut members = Vec::new();
         let mut members_by_params = Vec::new();
 
@@ -348,15 +347,13 @@ impl<'data> ProguardCache<'data> {
                     .into_values()
                     .flat_map(|m| m.into_iter()),
             );
-            writer.write_all(c.class.as_bytes())?;
+            class_entries.push(c.class);
         }
-        writer.align_to(8)?;
+        write_aligned(writer, class_entries.as_bytes())?;
 
-        writer.write_all(members.as_bytes())?;
-        writer.align_to(8)?;
+        write_aligned(writer, members.as_bytes())?;
 
-        writer.write_all(members_by_params.as_bytes())?;
-        writer.align_to(8)?;
+        write_aligned(writer, members_by_params.as_bytes())?;
 
         writer.write_all(&string_bytes)?;
 
@@ -407,6 +404,19 @@ impl<'data> ProguardCache<'data> {
     pub(crate) fn read_string(&self, offset: u32) -> Result<&'data str, watto::ReadStringError> {
         StringTable::read(self.string_bytes, offset as usize)
     }
+}
+
+/// Writes a section followed by the zero padding that aligns the next section to 8 bytes.
+///
+/// Every section starts 8-byte aligned, so the padding only depends on the section's length.
+/// The padding goes through `write_all` so that sinks accepting fewer bytes per call than
+/// requested still receive all of it.
+fn write_aligned<W: Write>(writer: &mut W, section: &[u8]) -> std::io::Result<()> {
+    const PADDING: [u8; 8] = [0; 8];
+
+    writer.write_all(section)?;
+    let padding = (8 - section.len() % 8) % 8;
+    writer.write_all(&PADDING[..padding])
 }
 
 /// A class that is currently being constructed in the course of writing a [`ProguardCache`].
